@@ -1559,6 +1559,8 @@ class Gen:
         ("i128", "checked_neg"): ("i128_checked_neg", "Option<i128>"),
         ("i128", "checked_pow"): ("i128_checked_pow", "Option<i128>"),
         ("i128", "checked_abs"): ("i128_checked_abs", "Option<i128>"),
+        ("i128", "saturating_add"): ("i128_saturating_add", "i128"),
+        ("i128", "saturating_sub"): ("i128_saturating_sub", "i128"),
     }
 
     def pure_mcall(self, e, env):
